@@ -147,7 +147,24 @@ Proof.
     destruct (err_of o0); reflexivity ] ].
 Qed.
 
+(* the public methods that hand a component to addNode: every graph.Add<Component>Node is
+   [gNode, options := to<Component>Node(node, opts...); return g.addNode(key, gNode, options)] and every
+   Chain.Append<Component> is [gNode, options := …; c.addNode(gNode, options); return c] — the method's own key,
+   the node and options made of the method's own arguments, addNode's answer handed back (a Chain records it) —, so
+   what [gstep] / [cstep] say about AddLambdaNode / AddPassthroughNode / AddGraphNode and AppendLambda /
+   AppendPassthrough / AppendGraph (the methods the correspondence drives; a Workflow's Add<Component>Node methods call
+   the graph's: Gen/C20Workflow.v) holds for the methods of the other components, which the harness cannot wire into
+   its one-type graphs.  A wrapper that drops the error, uses another key or another node has the verdict [false]. *)
+Definition names_in (want have : list string) : bool :=
+  forallb (fun m => existsb (String.eqb m) have) want.
+Theorem gen_node_wrappers_uniform : C.tie_available = true ->
+  forallb snd C.graph_node_wrappers = true /\ forallb snd C.chain_node_wrappers = true
+  /\ names_in ["AddLambdaNode"; "AddPassthroughNode"; "AddGraphNode"] (map fst C.graph_node_wrappers) = true
+  /\ names_in ["AppendLambda"; "AppendPassthrough"; "AppendGraph"] (map fst C.chain_node_wrappers) = true.
+Proof. intros TA; first [cvacuous TA | clear TA; vm_compute; repeat split; reflexivity]. Qed.
+
 Print Assumptions gen_graph_wrappers_agree.
+Print Assumptions gen_node_wrappers_uniform.
 Print Assumptions gen_chain_reportError_agrees.
 Print Assumptions gen_chain_addNode_agrees.
 Print Assumptions gen_chain_compile_agrees.
